@@ -114,16 +114,27 @@ def leaseAll (st : State) (si : String) (l : Lease) : State :=
 
 def getS (d : SecretsDict) (k : Secret) : Bytes := (dictGet d k).getD []
 
-/-- `allocate_buckets`: every finished share of the storage index gets the lease and is reported as
-already-have; a requested share that is neither finished nor being uploaded gets a `BucketWriter`. -/
-def hAllocate (st : State) (sec : SecretsDict) (si : String) (shnums : List Nat) (size : Nat) : State × Response :=
-  let lease : Lease := (getS sec .leaseRenew, getS sec .leaseCancel)
-  let imm' : List (Key × ImmShare) := st.imm.map (fun e =>
+/-- `StorageServer.allocate_buckets(si, renew_secret, cancel_secret, sharenums, allocated_size, renew_leases)`:
+when `renewLeases` (the default, and what both front ends pass) every finished share of the storage index gets
+the caller's lease added or renewed; all of them are reported as already-have; a requested share that is
+neither finished nor being uploaded gets a `BucketWriter` (which carries the lease).  `owner` is the handle the
+caller keeps for the new writers (the upload secret over HTTP).  Returns the state, already-have, allocated. -/
+def ssAllocate (renewLeases : Bool) (st : State) (si : String) (shnums : List Nat) (size : Nat) (owner : Bytes)
+    (lease : Lease) : State × List Nat × List Nat :=
+  let imm' : List (Key × ImmShare) :=
+    if renewLeases then st.imm.map (fun e =>
       if e.1.1 = si then (e.1, { e.2 with leases := addOrRenew e.2.leases lease }) else e)
+    else st.imm
   let fresh := (sortNat shnums).filter (fun n => (lookupK (si, n) st.imm).isNone && (lookupK (si, n) st.up).isNone)
-  let newUp : Upload := ⟨getS sec .upload, List.replicate size none, lease⟩
+  let newUp : Upload := ⟨owner, List.replicate size none, lease⟩
   let ups : List (Key × Upload) := st.up ++ fresh.map (fun n => ((si, n), newUp))
-  ({ st with imm := imm', up := ups }, ⟨200, .allocated (immNums st si) fresh⟩)
+  ({ st with imm := imm', up := ups }, immNums st si, fresh)
+
+/-- `HTTPServer.allocate_buckets`: the direct call with the default `renew_leases`, the new writers registered
+under the request's upload secret -/
+def hAllocate (st : State) (sec : SecretsDict) (si : String) (shnums : List Nat) (size : Nat) : State × Response :=
+  let r := ssAllocate true st si shnums size (getS sec .upload) (getS sec .leaseRenew, getS sec .leaseCancel)
+  (r.1, ⟨200, .allocated r.2.1 r.2.2⟩)
 
 def hAbort (st : State) (sec : SecretsDict) (si : String) (n : Nat) : State × Response :=
   match getWriteBucket Upload.secret st.up si n (getS sec .upload) with
@@ -199,17 +210,22 @@ def applyTW (enabler : Bytes) (lease : Lease) (si : String) (ms : List (Key × M
 def enablerMismatch (st : State) (si : String) (enabler : Bytes) : Bool :=
   st.muts.any fun e => e.1.1 = si ∧ e.2.enabler ≠ enabler
 
-def hRtw (st : State) (sec : SecretsDict) (si : String) (a : RtwArgs) : State × Response :=
-  let enabler := getS sec .writeEnabler
+/-- `StorageServer.slot_testv_and_readv_and_writev(si, (enabler, renew, cancel), tw_vectors, r_vector)`;
+`none` = `BadWriteEnablerError` -/
+def ssRtw (st : State) (si : String) (enabler : Bytes) (lease : Lease) (a : RtwArgs) : Option (State × RtwResult) :=
   -- `_collect_mutable_shares_for_storage_index`: the write enabler is checked against *every* existing share
-  if enablerMismatch st si enabler then (st, ⟨401, .empty⟩)
+  if enablerMismatch st si enabler then none
   else
     let shares := slotShares st si
     let good := testsPass shares a.tw
     let reads := readAll shares a.rv
-    let lease : Lease := (getS sec .leaseRenew, getS sec .leaseCancel)
     let st' := if good then { st with muts := a.tw.foldl (applyTW enabler lease si) st.muts } else st
-    (st', ⟨200, .rtwResult ⟨good, reads⟩⟩)
+    some (st', ⟨good, reads⟩)
+
+def hRtw (st : State) (sec : SecretsDict) (si : String) (a : RtwArgs) : State × Response :=
+  match ssRtw st si (getS sec .writeEnabler) (getS sec .leaseRenew, getS sec .leaseCancel) a with
+  | none => (st, ⟨401, .empty⟩)
+  | some r => (r.1, ⟨200, .rtwResult r.2⟩)
 
 /-! projections of the payload, written out per constructor (no overlapping patterns) -/
 
